@@ -162,6 +162,7 @@ def run(fx, rep):
     else:
         b = [x for x in fx.bodies.values() if F.norm_path(x.path) == ts_fn][0]
         rep.analysed(b)
+        b = fx.inline_view(b.path)          # the parse may sit in a private helper (`_timestamp`)
         pv = F.Prov(b)
         ps = [(bi, t) for bi, t in b.calls() if F.norm_callee(t) == 'chrono::DateTime::parse_from_rfc3339']
         okk = len(ps) == 1 and all(x == ('param', 1) for x in pv.of_operand(ps[0][1]['args'][0]))
